@@ -164,7 +164,11 @@ PROPS = {
     'C02': dict(
         monitor_quick=['rt:weaver.pipeline'],
         functions=[WV + '__init__', WV + 'recreate_from_average', WV + 'integral_match',
-                   'lemma:weaver.recreate_then_match_preserves_averages', 'lemma:weaver.block_average_returns_original', PR + 'average'],
+                   'lemma:weaver.recreate_then_match_preserves_averages', 'lemma:weaver.block_average_returns_original', PR + 'average']
+        # the functions the composition rests on are re-verified in this check as well (same obligations as in C01 / C10)
+        + MATCH + [SAU + 'rectangle_integral', SAU + 'trapezoid_integral', SAU + 'integral', SAU + 'sum_over_indices',
+                   SAU + 'find_closest_element_indices_to_values', SAU + 'find_closest_lower_or_higher_element_indices_to_values'],
+        select=[('match.', r'^(?!' + C03_CLAUSES + r')')],
         level='proof',
         explanation=("Composition of contracts: Weaver.__init__ keeps the original as reference; recreate_from_average (verified against "
                      "the strategy PROTOCOL - grid_ok - which C04 proves for the five own strategies) makes the processed abscissae the "
@@ -263,8 +267,10 @@ PROPS = {
     ),
     'C09': dict(
         monitor_quick=WEAVER_MUTATORS + [PR + 'trend'],
-        functions=WEAVER_MUTATORS + WEAVER_READERS + [PR + 'trend'],
-        select=[('weaver.Weaver', r'^(class-inv|frame::|ensures::restore|ensures::init_post|no-raise)'), ('process.trend', r'^frame::')],
+        functions=WEAVER_MUTATORS + WEAVER_READERS + [WV + m for m in ('recreate_from_average', 'integral_match', 'smooth', 'noise')]
+        + [PR + 'trend', PR + 'noise_gauss'] + MATCH,
+        select=[('weaver.Weaver', r'^(class-inv|frame::|ensures::restore|ensures::init_post|no-raise)'), ('process.trend', r'^frame::'),
+                ('process.noise_gauss', r'^(frame::|no-raise)'), ('match.', r'^(no-raise|frame::|hint|lemma-pre)')],
         level='proof',
         explanation=("Class invariant (six ndarray fields, equal lengths >= 1, strictly increasing abscissae) established by the "
                      "constructor and preserved by every method under its precondition; frame rule: no buffer that existed before a "
